@@ -201,6 +201,44 @@ Definition chk (s : sset Z Z) (ops : list (op)) (ex : list Z) (ell elp elq : opt
               out[-1200:] if not ok else f"{flags.count('false')} of {len(flags)} sequences differ (first index {flags.index('false') if 'false' in flags else None})")
     ctx.traces = len(flags)
     ctx.extra["sequences"] = nseq
+    # ---- concatenating sets that carry DIFFERENT optional fields: a field survives only when every piece has it, and the rows of
+    #      the result stay aligned (theorem C16_concat_keeps_rows_aligned on the model)
+    import itertools
+    nhet = 0
+    for cname, nsname in itertools.product(("BaseSamples", "SMCSamples", "Samples"), ("numpy", "torch", "jax")):
+        xp, dt = NS[nsname], nsutil.native_dtype(nsname, "float64")
+        for ha, hb in (((1, 1, 1), (1, 1, 0)), ((1, 0, 1), (1, 1, 1)), ((0, 1, 1), (1, 1, 0)), ((1, 1, 1), (1, 1, 1)), ((0, 0, 0), (1, 0, 0))):
+            def piece(has, off, n):
+                kw = {}
+                for f, flag, base in (("log_likelihood", has[0], 100), ("log_prior", has[1], 200), ("log_q", has[2], 300)):
+                    if flag:
+                        kw[f] = [float(base + off + i) for i in range(n)]
+                xs = np.asarray([[1000.0 + off + i, 5.0] for i in range(n)])
+                return classes[cname](xs, xp=xp, dtype=dt, parameters=["zeta", "alpha"], **kw)
+            case = {"cls": cname, "ns": nsname, "fields_a": ha, "fields_b": hb}
+            nhet += 1
+            ctx.count(("heterogeneous-concat", cname, nsname, ha, hb), True, kind="concat/different-fields")
+            try:
+                r = classes[cname].concatenate([piece(ha, 0, 3), piece(hb, 50, 4)])
+            except Exception as e:
+                if cname == "Samples" and all(ha) != all(hb):
+                    continue          # a weighted and a weightless piece: rejecting is acceptable, misaligning is not
+                ctx.violation(f"concat-raises:{cname}:{type(e).__name__}", f"concatenating pieces with fields {ha} and {hb} raised {e!r}", case)
+                continue
+            nrow = len(np.asarray(nsutil.to_list(r.x), float).reshape(-1, 2))
+            for k, (f, base) in enumerate((("log_likelihood", 100), ("log_prior", 200), ("log_q", 300))):
+                v = getattr(r, f)
+                both = bool(ha[k] and hb[k])
+                if (v is not None) != both:
+                    ctx.violation(f"concat-field-presence:{f}:{cname}", f"pieces have {f}: {bool(ha[k])}, {bool(hb[k])}; the concatenation has it: {v is not None}", case)
+                    break
+                if v is not None:
+                    got = [float(t) for t in np.asarray(nsutil.to_list(v), float).reshape(-1)]
+                    want = [float(base + i) for i in range(3)] + [float(base + 50 + i) for i in range(4)]
+                    if len(got) != nrow or got != want:
+                        ctx.violation(f"concat-rows-misaligned:{f}:{cname}", f"{f} has {len(got)} entries {got[:8]} for {nrow} rows (expected {want})", case)
+                        break
+    ctx.extra["heterogeneous_concatenations"] = nhet
 
 
 def check_fields(ctx, s, cur_idx, x, has, cname, case, scal=None, ns=None, width=None):
